@@ -263,6 +263,24 @@ func fillValue(rng *rand.Rand, fv reflect.Value, name string, o *Opts, depth int
 				fv.SetBytes(o.Records(rng))
 				return
 			}
+			if o.Tame && name == "Metadata" {
+				// JoinGroup protocol metadata: the coordinator sizes an allocation from the topic count inside these bytes
+				// (make([]string, 0, count) with count up to 2^32-1), so tame mode only sends a well-formed consumer
+				// subscription or fewer than the 6 bytes it looks at
+				if rng.Intn(3) == 0 {
+					b := make([]byte, rng.Intn(6))
+					rng.Read(b)
+					fv.SetBytes(b)
+					return
+				}
+				meta := kmsg.NewConsumerMemberMetadata()
+				meta.Version = int16(rng.Intn(2))
+				for i := 0; i < rng.Intn(3); i++ {
+					meta.Topics = append(meta.Topics, pick(rng, o.Names, "orders"))
+				}
+				fv.SetBytes(meta.AppendTo(nil))
+				return
+			}
 			switch rng.Intn(5) {
 			case 0:
 				fv.Set(reflect.Zero(fv.Type()))
